@@ -436,6 +436,11 @@ EDGE = [
     "{}\n/", "{} /", "{}/", "1\n/", "\"a\"\n/", "@T\n/", "1 // {min: 0}\n/", "[1]\n/", "[1] /", "1 /", "1 // x\n/", "{\"a\":[1]}\n/", "1 /* x */ /", "1 # c\n/",
     "// x", "/* x */", "// x\n", " \n// type", "# c\n// x", "/* x */ /* y */", "/* x */ // y", "// {min: 1}", "/* {min: 1} */\n", "// x\n1", "/* x */ 1", "// {min: 1}\n1",
     "// x\n// y\n2", "/* {a:1} */ x", "// x\n@t", "/* x */ [1]", "// x\nfoo", "/* {a:[1]} */", "// {a:{b:1}}\n",
+    # ninth round (block comments): the opener's third #; a block inside the rules of an inline annotation
+    "#####a\n###\n1", "### ##a\n###\n1", "1 #####a ###", "#####\n1", "####\n1", "######", "###### 1", "1 ######", "1 ####### x", "### a ####", "### a #### 1",
+    "1 // {min: 1 ### c ### }\n", "1 // {min: 1 ### c ### }", "1 // {min: 1, ### c ### max: 3}\n", "{\"a\": 1 // {min: 1 ### c ### }\n}", "[1, // {min: 1 ### c ### }\n2]",
+    "1 // {min: 1 ### c\n ### }\n", "1 // {### c ### min: 1}\n", "1 // {min: ### c ### 1}\n", "1 // {min: 1} ### c ### - n\n", "1 /* {min: 1 ### c ### } */", "1 // x ### c ### y\n",
+    "1 // {a: {b: 1 ### c ### }}\n", "1 // {a: [1, ### c ### 2]}\n", "1 // {min: 1 ### c ###\n", "1 // {min: 1 ### c ### # d\n}",
 ]
 
 
